@@ -85,19 +85,37 @@ def strip_lean_comments(src):
     return "".join(out)
 
 
-def forbidden_token_hits():
-    hits = []
-    for root, _, files in os.walk(LEAN_DIR):
-        if ".lake" in root:
+def import_closure(module):
+    """files of this project transitively imported by `module` (e.g. DoviModel.Props.C13)"""
+    seen = {}
+    todo = [module]
+    while todo:
+        m = todo.pop()
+        if m in seen:
             continue
-        for f in files:
-            if not f.endswith(".lean"):
-                continue
-            p = os.path.join(root, f)
-            src = strip_lean_comments(open(p).read())
-            for ln, line in enumerate(src.split("\n"), 1):
-                if re.search(FORBIDDEN_TOKENS, line):
-                    hits.append("%s:%d: %s" % (os.path.relpath(p, VERIF), ln, line.strip()))
+        p = os.path.join(LEAN_DIR, *m.split(".")) + ".lean"
+        if not os.path.exists(p):
+            continue
+        seen[m] = p
+        for line in open(p):
+            mm = re.match(r"\s*import\s+((?:DoviModel|Driver)\.[\w.]+)", line)
+            if mm:
+                todo.append(mm.group(1))
+    return seen
+
+
+def forbidden_token_hits(module=None):
+    """forbidden tokens (comments stripped) in the sources the property module depends on, and in the driver"""
+    files = {}
+    if module:
+        files.update(import_closure(module))
+    files.update(import_closure("Driver.Main"))
+    hits = []
+    for m, p in sorted(files.items()):
+        src = strip_lean_comments(open(p).read())
+        for ln, line in enumerate(src.split("\n"), 1):
+            if re.search(FORBIDDEN_TOKENS, line):
+                hits.append("%s:%d: %s" % (os.path.relpath(p, VERIF), ln, line.strip()))
     return hits
 
 
@@ -406,7 +424,7 @@ class Ctx:
                     self.proof_failures.append({"what": "axioms outside the allowed set", "theorem": n, "axioms": a})
                 else:
                     self.discharged += 1
-            hits = forbidden_token_hits()
+            hits = forbidden_token_hits(prop_mod)
             if hits:
                 self.proof_failures.append({"what": "forbidden tokens in lean sources", "hits": hits[:20]})
         if self.tier == "thorough" and ok:
